@@ -66,7 +66,7 @@ def run(chk):
         v = coords.rvec(lq["v"]) * scale
         q = coords.rvec(lq["q"])
         offs = np.cumsum([0] + sizes)
-        data = [(lq["n"], q[offs[s]:offs[s + 1]].copy()) for s in range(len(sizes))]
+        data = [(lq["n"][s], q[offs[s]:offs[s + 1]].copy()) for s in range(len(sizes))]
         W = [coords.rmat(w) for w in lq["W"]]
         wre = coords.rvec(lq["w"])
         uniq = "%s:d%d:%s:k%d" % (tag, lq["d"], mode, lq["k"])
